@@ -1,6 +1,6 @@
 # ./check configuration for C01 (merged by mc/props.py)
 PROP = dict(
-    pkg=".", test="TestVerifC01", files=["mc/c01/*.go"], libs=["explore", "canon", "sim"],
+    pkg=".", test="TestVerifC01", files=["mc/c01/*.go"], libs=["explore", "canon", "sim", "wiremon"],
     engine="E2 simx", level="fault_enumeration", shards="ncpu", gomaxprocs=1,
     env={"GODEBUG": "randseednop=0,asyncpreemptoff=1"},
     deterministic=False, crash_is_violation=True,
